@@ -5,6 +5,7 @@ from __future__ import annotations
 from inspect import isawaitable
 from typing import TYPE_CHECKING, Any
 
+from hypergraph.nodes._rename import build_reverse_rename_map
 from hypergraph.nodes.base import _EMIT_SENTINEL
 from hypergraph.runners._shared.types import PauseExecution, PauseInfo
 from hypergraph.runners.async_.superstep import get_concurrency_limiter
@@ -91,6 +92,13 @@ def _normalize_response(
     if not data_outputs:
         return {}
     if len(data_outputs) > 1 and isinstance(response, dict):
+        # The handler answers under the output names it was declared with;
+        # with_outputs may have renamed them since (same translation as for a
+        # nested graph's outputs). Built as a new dict: the handler's own dict
+        # is not ours to write emit sentinels into.
+        reverse_map = build_reverse_rename_map(node._rename_history, "outputs")
+        forward_map = {original: current for current, original in reverse_map.items() if current in node.outputs}
+        response = {forward_map.get(key, key): value for key, value in response.items()}
         expected_keys = set(data_outputs)
         actual_keys = set(response.keys())
         if actual_keys != expected_keys:
